@@ -15,6 +15,8 @@ import (
 	"encoding/json"
 	"flag"
 	"fmt"
+	"io"
+	"log"
 	"os"
 	"os/exec"
 	"runtime"
@@ -52,6 +54,9 @@ type windowD struct {
 	Race     string      `json:"race,omitempty"`  // race detector report printed by the child (only in -race builds)
 	Fresh    []freshPair `json:"fresh,omitempty"` // live artifact vs fresh instance with the same parameter values
 	FreshBad int         `json:"fresh_mismatches,omitempty"`
+	HTTP     bool        `json:"http,omitempty"`     // every call of the window is an HTTP request against the edit server (transport.go)
+	Scenario string      `json:"scenario,omitempty"` // "overlap": orchestrated serialisation overlap (scenario.go)
+	Inconclusive string  `json:"inconclusive,omitempty"` // the window could not be run (harness-side deadline): dropped
 }
 
 type freshPair struct {
@@ -70,6 +75,8 @@ var (
 	attempts      = flag.Int("attempts", 300, "replay: number of re-runs of the recorded programs")
 	windowTimeout = flag.Duration("window-timeout", 10*time.Second, "deadline for one window")
 	coldFlag      = flag.Int("cold", -1, "number of cold-start windows run in child processes (-1: n/16, at most 400)")
+	httpFlag      = flag.Int("http-epochs", -1, "epochs served through the edit server's HTTP handlers (-1: every third epoch, at most 60)")
+	sweepFlag     = flag.Bool("sweeps", true, "sequential sweep scripts (update-count coincidences)")
 	consumeFlag   = flag.Bool("consume", true, "clients also re-read retained responses of earlier windows slowly while updates run")
 )
 
@@ -95,6 +102,16 @@ func (g *liveGraph) do(t int, op opD, clock *atomic.Uint64) (rc rec) {
 			msg = encodeVal(g.par[op.P].typ, op.V, op.Enc)
 		}
 		id := g.par[op.P].id
+		if g.srv != nil {
+			rc.Inv = clock.Add(1)
+			ok, note, err := g.srv.update(id, msg)
+			rc.Res = clock.Add(1)
+			rc.Resp, rc.Note = respD{K: "upd", Ok: ok}, note
+			if err != nil {
+				rc.Resp, rc.Note = respD{K: "fail"}, "http: "+err.Error()
+			}
+			break
+		}
 		rc.Inv = clock.Add(1)
 		ok, err := g.inst.UpdateParameter(id, msg)
 		rc.Res = clock.Add(1)
@@ -105,9 +122,21 @@ func (g *liveGraph) do(t int, op opD, clock *atomic.Uint64) (rc rec) {
 		}
 	case "g":
 		id := g.par[op.P].id
-		rc.Inv = clock.Add(1)
-		data := g.inst.ParameterData(id)
-		rc.Res = clock.Add(1)
+		var data []byte
+		if g.srv != nil {
+			var err error
+			rc.Inv = clock.Add(1)
+			data, err = g.srv.parameterData(id)
+			rc.Res = clock.Add(1)
+			if err != nil {
+				rc.Resp, rc.Note = respD{K: "fail"}, "http: "+err.Error()
+				break
+			}
+		} else {
+			rc.Inv = clock.Add(1)
+			data = g.inst.ParameterData(id)
+			rc.Res = clock.Add(1)
+		}
 		rc.raw, rc.g = data, g
 		if v, ok := decodeVal(g.par[op.P].typ, append([]byte{}, data...)); ok {
 			rc.Resp = respD{K: "get", V: v}
@@ -118,6 +147,25 @@ func (g *liveGraph) do(t int, op opD, clock *atomic.Uint64) (rc rec) {
 	case "a":
 		name := g.shape.Prods[op.Prod].Name
 		rc.F, rc.Bad = g.prodF[op.Prod], g.prodB[op.Prod]
+		if g.srv != nil {
+			rc.Inv = clock.Add(1)
+			data, panicked, err := g.srv.artifact(name)
+			rc.Res = clock.Add(1)
+			rc.g = g
+			switch {
+			case err != nil:
+				rc.Resp, rc.Note = respD{K: "fail"}, "http: "+err.Error()
+			case panicked:
+				rc.Resp, rc.Note = respD{K: "panic"}, "the handler recovered a panic of the evaluation"
+			default:
+				if vs, ok := g.decodeArtifact(op.Prod, data); ok {
+					rc.Resp = respD{K: "art", Vs: vs}
+				} else {
+					rc.Resp, rc.Note = respD{K: "fail"}, "artifact shows "+clip(string(data))
+				}
+			}
+			break
+		}
 		rc.Inv = clock.Add(1)
 		a := g.inst.Artifact(name)
 		rc.Res = clock.Add(1)
@@ -131,14 +179,46 @@ func (g *liveGraph) do(t int, op opD, clock *atomic.Uint64) (rc rec) {
 		}
 	case "v":
 		rc.Inv = clock.Add(1)
-		v := g.inst.ModelVersion()
+		v, ok := g.modelVersion()
 		rc.Res = clock.Add(1)
 		rc.Resp = respD{K: "ver", V: int(v)}
+		if !ok {
+			rc.Resp = respD{K: "fail"}
+		}
 	case "s":
 		rc.Inv = clock.Add(1)
-		s := g.inst.Schema()
+		n := 0
+		if g.srv != nil {
+			n, _ = g.srv.schemaNodes()
+		} else {
+			n = len(g.inst.Schema().Nodes)
+		}
 		rc.Res = clock.Add(1)
-		rc.Resp = respD{K: "schema", V: len(s.Nodes)}
+		rc.Resp = respD{K: "schema", V: n}
+	case "z":
+		// GET /zip (HTTP only): one archive with every producer's artifact = one Artifact call per producer, all
+		// inside the interval of the request
+		rc.Op = opD{K: "a", Prod: 0}
+		rc.F, rc.Bad = g.prodF[0], g.prodB[0]
+		rc.Inv = clock.Add(1)
+		files, err := g.srv.zipFiles()
+		rc.Res = clock.Add(1)
+		rc.g = g
+		for k := range g.shape.Prods {
+			x := rec{T: t, Op: opD{K: "a", Prod: k}, F: g.prodF[k], Bad: g.prodB[k], Inv: rc.Inv, Res: rc.Res, g: g, Note: "zip"}
+			data, ok := files[g.shape.Prods[k].Name]
+			if vs, ok2 := g.decodeArtifact(k, data); err == nil && ok && ok2 {
+				x.Resp = respD{K: "art", Vs: vs}
+			} else {
+				x.Resp = respD{K: "fail"}
+				x.Note = fmt.Sprintf("zip: %v / %s", err, clip(string(data)))
+			}
+			if k == 0 {
+				rc.Resp, rc.Note = x.Resp, x.Note
+			} else {
+				rc.extra = append(rc.extra, x)
+			}
+		}
 	case "c":
 		// slow consumer: read a response retained from an earlier window chunk by chunk while updates run
 		rc.Inv = clock.Add(1)
@@ -154,6 +234,22 @@ func (g *liveGraph) do(t int, op opD, clock *atomic.Uint64) (rc rec) {
 		rc.Res = clock.Add(1)
 	}
 	return rc
+}
+
+func clip(s string) string {
+	if len(s) > 200 {
+		return s[:200] + "..."
+	}
+	return s
+}
+
+// modelVersion: Instance.ModelVersion(), or what /started reports
+func (g *liveGraph) modelVersion() (uint32, bool) {
+	if g.srv != nil {
+		v, err := g.srv.modelVersion()
+		return v, err == nil
+	}
+	return g.inst.ModelVersion(), true
 }
 
 // slowWriter copies what it is given in small chunks, yielding in between (a slow download)
@@ -218,7 +314,7 @@ func (rc *rec) sliceBacked() bool {
 	}
 	switch rc.Op.K {
 	case "a":
-		return rc.g.shape.Prods[rc.Op.Prod].Kind != ""
+		return !isText(rc.g.shape.Prods[rc.Op.Prod].Kind)
 	case "g":
 		t := rc.g.par[rc.Op.P].typ
 		return t == "file" || t == "ints" || t == "image"
@@ -248,13 +344,46 @@ func (g *liveGraph) readState() (vals []int, ver uint32, ok bool) {
 		ver  uint32
 	}
 	ch := make(chan st, 1)
-	go func() { ch <- st{g.readAll(), g.inst.ModelVersion()} }()
-	select {
-	case x := <-ch:
+	go func() {
+		vals := g.readAll()
+		ver, ok := g.modelVersion()
+		if !ok {
+			vals[0] = 999999
+		}
+		ch <- st{vals, ver}
+	}()
+	if x, ok := waitDone(ch, *windowTimeout+*windowTimeout/2); ok {
 		return x.vals, x.ver, true
-	case <-time.After(*windowTimeout + *windowTimeout/2):
-		return nil, 0, false
 	}
+	return nil, 0, false
+}
+
+// waitDone: wait for done, at most d of time during which THIS PROCESS was running normally.  The deadline is
+// consumed in slices of 250 ms; a slice whose timer fires late by more than its own length (the whole process was
+// stalled: overloaded or throttled machine, stopped container) is not counted, so that a stall never turns a
+// healthy call into a "stuck" one, while a call that is really stuck is still reported after d.
+func waitDone[T any](done <-chan T, d time.Duration) (T, bool) {
+	const slice = 250 * time.Millisecond
+	var zero T
+	for used := time.Duration(0); used < d; {
+		t0 := time.Now()
+		timer := time.NewTimer(slice)
+		select {
+		case x := <-done:
+			timer.Stop()
+			return x, true
+		case <-timer.C:
+			if time.Since(t0) < 2*slice {
+				used += slice
+			}
+		}
+	}
+	select { // a last look: the answer may have arrived while the final slice was being accounted
+	case x := <-done:
+		return x, true
+	default:
+	}
+	return zero, false
 }
 
 func stuckRead(clock *atomic.Uint64) rec {
@@ -278,6 +407,16 @@ func runWindow(g *liveGraph, progs [][]opD, clock *atomic.Uint64) (recs []rec, t
 		total += len(p)
 	}
 	ch := make(chan msgT, total+T+4)
+	for t := range progs { // "count" below indexes the programmed ops: skipped ones must not be counted as stuck
+		var kept []opD
+		for _, op := range progs[t] {
+			if ((op.K == "v" || op.K == "s") && !*unlockedReads) || (op.K == "z" && g.srv == nil) {
+				continue
+			}
+			kept = append(kept, op)
+		}
+		progs[t] = kept
+	}
 	var ready atomic.Int32
 	for t := range progs {
 		go func(t int, prog []opD) {
@@ -288,6 +427,9 @@ func runWindow(g *liveGraph, progs [][]opD, clock *atomic.Uint64) (recs []rec, t
 			for _, op := range prog {
 				if (op.K == "v" || op.K == "s") && !*unlockedReads {
 					continue // replayed programs may contain them; the -race run leaves the documented-unlocked readers out
+				}
+				if op.K == "z" && g.srv == nil {
+					continue
 				}
 				ch <- msgT{t: t, r: g.do(t, op, clock)}
 			}
@@ -301,6 +443,7 @@ func runWindow(g *liveGraph, progs [][]opD, clock *atomic.Uint64) (recs []rec, t
 			finished++
 		} else {
 			recs = append(recs, m.r)
+			recs = append(recs, m.r.extra...)
 			count[m.t]++
 		}
 	}
@@ -321,12 +464,10 @@ func runWindow(g *liveGraph, progs [][]opD, clock *atomic.Uint64) (recs []rec, t
 			}
 			timer.Reset(*windowTimeout)
 		case <-timer.C:
-			select {
-			case m := <-ch:
+			if m, ok := waitDone(ch, *windowTimeout/2); ok {
 				handle(m)
 				timer.Reset(*windowTimeout)
 				continue
-			case <-time.After(*windowTimeout / 2):
 			}
 			// stuck clients (deadlock in the implementation): their current call never returned
 			for t := range progs {
@@ -475,6 +616,17 @@ func genPrograms(r *hx.Rng, g *liveGraph, T int, cur []int, withUnlocked bool) [
 			progs[t] = append(progs[t][:pos], append([]opD{{K: "s"}}, progs[t][pos:]...)...)
 		}
 	}
+	if g.srv != nil && r.Chance(1, 5) {
+		panicky := false
+		for _, b := range g.prodB {
+			panicky = panicky || len(b) > 0
+		}
+		if !panicky { // App.WriteZip does not recover a panicking producer: the connection is dropped
+			t := r.Intn(T)
+			pos := r.Intn(len(progs[t]) + 1)
+			progs[t] = append(progs[t][:pos], append([]opD{{K: "z"}}, progs[t][pos:]...)...)
+		}
+	}
 	if *consumeFlag && len(g.retained) > 0 {
 		for k := r.Intn(3); k > 0; k-- {
 			t := r.Intn(T)
@@ -577,7 +729,7 @@ func (g *liveGraph) prime(cur []int, clock *atomic.Uint64) {
 	// succeeded before); artifacts that keep slices are retained
 	for k, pr := range g.shape.Prods {
 		rc := g.do(0, opD{K: "a", Prod: k}, clock)
-		if pr.Kind != "" && rc.Resp.K == "art" {
+		if !isText(pr.Kind) && rc.Resp.K == "art" {
 			g.retained = append(g.retained, &rc)
 		}
 	}
@@ -587,12 +739,8 @@ func (g *liveGraph) prime(cur []int, clock *atomic.Uint64) {
 func (g *liveGraph) primeGuarded(cur []int, clock *atomic.Uint64) bool {
 	done := make(chan bool, 1)
 	go func() { g.prime(cur, clock); done <- true }()
-	select {
-	case <-done:
-		return true
-	case <-time.After(*windowTimeout + *windowTimeout/2):
-		return false
-	}
+	_, ok := waitDone(done, *windowTimeout+*windowTimeout/2)
+	return ok
 }
 
 // oneWindow: run the programs of w on g, read the state at the following quiescent point, re-read retained responses
@@ -612,9 +760,7 @@ func freshOracle(g *liveGraph, w *windowD, which int, clock *atomic.Uint64) {
 			w.Fresh = append(w.Fresh, freshPair{Prod: k, Live: live.Resp, Fresh: fr.Resp})
 		}
 	}()
-	select {
-	case <-done:
-	case <-time.After(*windowTimeout + *windowTimeout/2):
+	if _, ok := waitDone(done, *windowTimeout+*windowTimeout/2); !ok {
 		w.Fresh = []freshPair{{Prod: 0, Live: respD{K: "fail"}, Fresh: respD{K: "art"}}}
 	}
 	w.FreshBad = 0
@@ -628,7 +774,13 @@ func freshOracle(g *liveGraph, w *windowD, which int, clock *atomic.Uint64) {
 
 func oneWindow(g *liveGraph, w *windowD, which int, clock *atomic.Uint64) {
 	g.over.Store(0)
-	recs, to := runWindow(g, w.Progs, clock)
+	var recs []rec
+	var to bool
+	if w.Scenario == "overlap" {
+		recs, to = runOverlap(g, w.Progs, clock)
+	} else {
+		recs, to = runWindow(g, w.Progs, clock)
+	}
 	w.Timeout = to
 	w.Final, w.VerAfter = w.Init, w.Ver // kept when the instance is wedged: it is not touched again
 	if !to {
@@ -673,7 +825,7 @@ func toCase(w *windowD, kindPrefix string) hx.Case {
 	}
 	fresh := "[" + strings.Join(fs, "; ") + "]"
 	var coq, kind string
-	if w.Threads == 1 && len(w.VReads) == 0 && w.Overlaps == 0 {
+	if w.Threads == 1 && len(w.VReads) == 0 && w.Overlaps == 0 && w.Scenario == "" {
 		// program order = stamp order for a single client
 		kind = "seq"
 		coq = fmt.Sprintf("CSeq %s %d %s %s %d %s %s", coqNs(w.Init), w.Ver, calls, coqNs(w.Final), w.VerAfter, late, fresh)
@@ -696,6 +848,12 @@ func toCase(w *windowD, kindPrefix string) hx.Case {
 	key := w.Shape.Name + "|" + fmt.Sprint(w.Init) + "|" + calls + "|" + strings.Join(vs, ";") + "|" + late + "|" + fresh
 	if w.Cold {
 		kind = "cold-" + kind
+	}
+	if w.HTTP {
+		kind = "http-" + kind
+	}
+	if w.Scenario != "" {
+		kind = w.Scenario + "-" + kind
 	}
 	c := hx.Case{Kind: kindPrefix + kind, Desc: w, Coq: coq, Nontriv: nontriv, Key: key}
 	if w.Race != "" { // only in -race builds: the detector's report belongs to exactly this window
@@ -740,6 +898,39 @@ func stats(run *hx.Run, w *windowD) {
 	}
 	if w.Cold {
 		run.Count("window:cold-start-in-child-process")
+	}
+	if w.HTTP {
+		run.Count("window:through-http-handlers")
+	}
+	if w.Scenario != "" {
+		run.Count("window:scenario-" + w.Scenario)
+		// did the scenario get its shape: a follower artifact request invoked after an update responded, while
+		// the gated request was still open?
+		for i := range w.Calls {
+			a := &w.Calls[i]
+			if a.T != 0 || a.Op.K != "a" {
+				continue
+			}
+			for j := range w.Calls {
+				u := &w.Calls[j]
+				if !isUpdate(u.Op) || !(a.Inv < u.Inv && u.Res < a.Res) {
+					continue
+				}
+				for k := range w.Calls {
+					c := &w.Calls[k]
+					if c.T >= 2 && c.Op.K == "a" && c.Op.Prod == a.Op.Prod && u.Res < c.Inv && c.Inv < a.Res {
+						run.Count("scenario-overlap:follower-invoked-after-ack-during-slow-download")
+						goto shaped
+					}
+				}
+			}
+		}
+	shaped:
+	}
+	for k := range w.Calls {
+		if w.Calls[k].Note == "zip" {
+			run.Count("op:artifact-through-zip-endpoint")
+		}
 	}
 	if w.Crash != "" {
 		run.Count("window:child-crashed")
@@ -851,13 +1042,30 @@ func runCold(w *windowD) {
 		}
 	}
 	in, _ := json.Marshal(w)
-	ctx, cancel := context.WithTimeout(context.Background(), 3**windowTimeout+10*time.Second)
-	defer cancel()
-	cmd := exec.CommandContext(ctx, os.Args[0], "-cold-child", "-window-timeout", windowTimeout.String())
-	cmd.Stdin = bytes.NewReader(in)
+	// The child reports a stuck implementation itself (its own window deadline, one round).  The deadline here only
+	// guards against a child that does not come back at all; when it expires the attempt is repeated once with a
+	// longer deadline, and a second expiry is recorded as INCONCLUSIVE (the window is dropped, nothing is reported):
+	// on an overloaded machine starting a process and running eight rounds can take arbitrarily long.
 	var out, errb bytes.Buffer
-	cmd.Stdout, cmd.Stderr = &out, &errb
-	err := cmd.Run()
+	var err error
+	for try, limit := 0, 3**windowTimeout+30*time.Second; try < 2; try, limit = try+1, 3*limit {
+		ctx, cancel := context.WithTimeout(context.Background(), limit)
+		cmd := exec.CommandContext(ctx, os.Args[0], "-cold-child", "-window-timeout", windowTimeout.String())
+		cmd.Stdin = bytes.NewReader(in)
+		out.Reset()
+		errb.Reset()
+		cmd.Stdout, cmd.Stderr = &out, &errb
+		err = cmd.Run()
+		expired := ctx.Err() == context.DeadlineExceeded
+		cancel()
+		if !expired {
+			break
+		}
+		if try == 1 {
+			w.Inconclusive = "the cold-start child process did not finish within its deadline (overloaded machine?)"
+			return
+		}
+	}
 	stderr := errb.String()
 	var res windowD
 	if json.Unmarshal(out.Bytes(), &res) == nil && res.Shape != nil {
@@ -967,12 +1175,31 @@ func main() {
 	}
 	run := hx.ParseFlags("C13", "Check.C13")
 	clock := &atomic.Uint64{}
+	// the edit server prints ("Serving over ...", stack traces of recovered panics) and logs: not our output
+	if null, err := os.OpenFile(os.DevNull, os.O_WRONLY, 0); err == nil {
+		os.Stdout = null
+	}
+	log.SetOutput(io.Discard)
 
 	// ---- replay: re-judge the recorded history, then try to reproduce it by re-running the same programs
 	for _, in := range run.Inputs() {
+		if strings.Contains(in.Kind, "sweep") {
+			// a sequential script is deterministic: run it again
+			var sw sweepD
+			if err := json.Unmarshal(in.Raw, &sw); err != nil || sw.Shape == nil {
+				fmt.Fprintln(os.Stderr, "replay: cannot decode", in.From, err)
+				continue
+			}
+			re := &sweepD{Shape: sw.Shape, Plan: sw.Plan, Init: sw.Init, Steps: sw.Steps, HTTP: sw.HTTP}
+			runSweep(re, clock)
+			sweepStats(run, re)
+			run.Add(sweepCase(re, "rerun-"))
+			run.Count("replay:sweep-rerun")
+			continue
+		}
 		var w windowD
 		if err := json.Unmarshal(in.Raw, &w); err != nil || w.Shape == nil {
-			fmt.Println("replay: cannot decode", in.From, err)
+			fmt.Fprintln(os.Stderr, "replay: cannot decode", in.From, err)
 			continue
 		}
 		// a schedule cannot be replayed deterministically: re-run the recorded programs from the recorded
@@ -980,11 +1207,19 @@ func main() {
 		// re-run is rejected by the mirror too, so that replaying against a repaired tree passes
 		var reruns []*windowD
 		reproduced := 0
-		for a := 0; a < *attempts && reproduced < 3; a++ {
+		nAttempts := *attempts
+		if w.HTTP && nAttempts > 40 { // every attempt leaves an edit server behind
+			nAttempts = 40
+		}
+		for a := 0; a < nAttempts && reproduced < 3; a++ {
 			run.Count("replay:attempt")
 			if w.Cold {
 				nw := &windowD{Shape: w.Shape, Threads: w.Threads, Jitter: w.Jitter, Progs: w.Progs, Init: w.Init, Rounds: w.Rounds, CLI: w.CLI}
 				runCold(nw)
+				if nw.Inconclusive != "" {
+					run.Count("cold:inconclusive-child-deadline")
+					continue
+				}
 				if nw.flagged() {
 					reproduced++
 					reruns = append(reruns, nw)
@@ -993,8 +1228,18 @@ func main() {
 				}
 				continue
 			}
-			g := build(w.Shape, w.Init, &jit{level: w.Jitter})
-			nw := &windowD{Shape: w.Shape, Threads: w.Threads, Jitter: w.Jitter, Progs: w.Progs}
+			var g *liveGraph
+			if w.HTTP {
+				g = buildHTTP(w.Shape, w.Init, &jit{level: w.Jitter})
+			}
+			if g == nil {
+				g = build(w.Shape, w.Init, &jit{level: w.Jitter})
+			}
+			progs := make([][]opD, len(w.Progs))
+			for t := range progs {
+				progs[t] = append([]opD{}, w.Progs[t]...)
+			}
+			nw := &windowD{Shape: w.Shape, Threads: w.Threads, Jitter: w.Jitter, Progs: progs, HTTP: g.srv != nil, Scenario: w.Scenario}
 			okp := g.primeGuarded(w.Init, clock)
 			var ok0 bool
 			if okp {
@@ -1072,7 +1317,16 @@ func main() {
 		}
 		cw.Progs = coldPrograms(r, g, T, init0, cw.CLI)
 		runCold(cw)
+		if cw.Inconclusive != "" {
+			run.Count("cold:inconclusive-child-deadline")
+			ncold-- // do not spin on an overloaded machine
+			continue
+		}
 		windows = append(windows, cw)
+	}
+	httpBudget := *httpFlag
+	if httpBudget < 0 {
+		httpBudget = 60
 	}
 	for len(windows) < run.N {
 		var shape *shapeD
@@ -1096,7 +1350,18 @@ func main() {
 			jl = r.Intn(jl + 1)
 		}
 		init0 := randomInit(r, shape)
-		g := build(shape, init0, &jit{level: jl})
+		var g *liveGraph
+		if httpBudget > 0 && epoch%3 == 2 { // (epoch was incremented above: the second, fifth, ... epoch)
+			if g = buildHTTP(shape, init0, &jit{level: jl}); g == nil {
+				run.Count("http:edit-server-did-not-start")
+			} else {
+				httpBudget--
+				run.Count("epoch:through-http-handlers")
+			}
+		}
+		if g == nil {
+			g = build(shape, init0, &jit{level: jl})
+		}
 		cur, ver, ok0 := g.readState()
 		if ok0 {
 			if ok0 = g.primeGuarded(cur, clock); ok0 {
@@ -1115,8 +1380,12 @@ func main() {
 		}
 		nwin := r.Range(20, 50)
 		for k := 0; k < nwin && len(windows) < run.N; k++ {
-			w := &windowD{Shape: shape, Threads: T, Jitter: jl, Init: cur, Ver: ver}
-			w.Progs = genPrograms(r, g, T, cur, *unlockedReads)
+			w := &windowD{Shape: shape, Threads: T, Jitter: jl, Init: cur, Ver: ver, HTTP: g.srv != nil}
+			if progs := overlapPrograms(r, g, cur); g.srv != nil && k%4 == 1 && progs != nil {
+				w.Scenario, w.Progs, w.Threads = "overlap", progs, len(progs)
+			} else {
+				w.Progs = genPrograms(r, g, T, cur, *unlockedReads)
+			}
 			oneWindow(g, w, -1, clock)
 			windows = append(windows, w)
 			cur, ver = w.Final, w.VerAfter
@@ -1129,6 +1398,23 @@ func main() {
 				}
 				break // abandon the epoch (stuck goroutines are leaked)
 			}
+		}
+	}
+
+	// sequential sweep scripts (deterministic; each on its own fresh instance)
+	var sweeps []*sweepD
+	if *sweepFlag {
+		sweeps = sweepPlans(r, fixed, run.Tier == "thorough")
+		bad := 0
+		for _, sw := range sweeps {
+			if bad >= 6 { // a broken implementation: a few reports are enough
+				break
+			}
+			if !runSweep(sw, clock) {
+				bad++
+			}
+			sweepStats(run, sw)
+			run.Add(sweepCase(sw, ""))
 		}
 	}
 
